@@ -157,6 +157,25 @@ func c02Verbs(w *rt.W, n uint64) {
 			fail("verb", "Sprintf "+vb.verb, s, want)
 		}
 	}
+	if n%16 == 0 || n < 64 {
+		for _, verb := range letterVerbs { // only R r L l select a format of their own
+			f := df
+			switch verb {
+			case "%R":
+				f = 0
+			case "%r":
+				f = roman.FormatLowerCase
+			case "%L":
+				f = long
+			case "%l":
+				f = long | roman.FormatLowerCase
+			}
+			if s, want := fmt.Sprintf(verb, num), ref.RomanFormat(n, refRomanFlags(f)); s != want {
+				fail("verb", "Sprintf "+verb, s, want)
+			}
+		}
+		w.Eval(49)
+	}
 	w.Eval(15)
 	if roman.MaxInputLength == 0 || len(wantD) <= roman.MaxInputLength {
 		u := roman.Number(n + 12345) // the receiver already holds another value
